@@ -509,3 +509,408 @@ def c11_regex_backtracking_shape(ctx):
         obs.append({"name": "c11-regex-backtracking-shape/found-patterns", "kind": "post", "verdict": "unknown", "solver": "scan",
                     "ms": 0.0, "carries": True, "lineno": 0, "note": "no regex literal found under src/"})
     return obs
+
+
+# ================================================================== BOUNDED net: no rule fails internally on mutated sources
+# Labelled `bounded` (a finite native test at the property's observation point, NOT a proof, and not a replacement for
+# the raise-set / safety obligations of the functions under contract): every registered rule is run by the real
+# Orchestrator on grammar-aware mutations -- every single-token deletion, every single-token duplication, truncation
+# after every third token -- of a small corpus of healthy Python / TypeScript / Rust files that exercise each linter's
+# constructs. Oracle, from the property text only: lint_file returns (no exception escapes) and the orchestrator logs
+# no "Rule ... failed on ..." record (= an analysis abandoned through a swallowed exception).
+import json as _json  # noqa: E402
+import subprocess as _subprocess  # noqa: E402
+import sys as _sys  # noqa: E402
+import tempfile as _tempfile  # noqa: E402
+
+MUTATION_CORPUS = {
+    "suppressions.py": '''"""
+Purpose: sample module with suppression comments
+
+Suppressions:
+    - F401: re-exported name
+    - type:ignore[attr-defined]: dynamic attribute
+    * invalid-name: legacy API
+"""
+import os  # noqa: F401, E501
+import sys  # noqa
+
+value = sys.modules.get("x").thing  # type: ignore[attr-defined, misc]
+X = 1  # pylint: disable=invalid-name,too-many-arguments
+y = 2  # thailint: ignore[magic-numbers, nesting]
+assert y  # nosec B101
+''',
+    "logging_patterns.py": '''import logging
+
+logger = logging.getLogger(__name__)
+
+
+def run(config, verbose, items):
+    if config.get("verbose", default=False):
+        logger.debug("starting %s", len(items))
+    if verbose:
+        logger.info("verbose on")
+    if config.get("debug"):
+        print("debug")
+    for item in items:
+        if not item.valid:
+            continue
+        logger.warning(item)
+
+
+if __name__ == "__main__":
+    print(run({}, True, []))
+''',
+    "patterns.py": '''import re
+
+
+class User:
+    def __init__(self, name):
+        self._name = name
+
+    def get_name(self):
+        return self._name
+
+
+class TokenHasher:
+    def hash_token(self, token):
+        return hash(token)
+
+    def hash_all(self, tokens):
+        return [hash(t) for t in tokens]
+
+
+def process(data, lines, config, key):
+    result = ""
+    for item in data:
+        result += str(item)
+    for line in lines:
+        if re.match(r"\\d+", line):
+            timeout = 3600
+    if key in config:
+        value = config[key]
+    saved = fetch(data)
+    save(saved)
+    return result
+''',
+    "call_forms.py": '''import os
+
+
+def check(q, cache, d, opts, text, obj, items):
+    if q.get(block=False):
+        return 1
+    if cache.get(**opts):
+        return 2
+    if d.get():
+        return 3
+    if d.get("verbose", False) and text.isnumeric():
+        return int(text)
+    if os.path.exists(*items):
+        return open(*items)
+    if hasattr(obj):
+        return obj.value
+    if isinstance(obj, (int, str)) and len(items) > 0:
+        return items[0]
+    if len() or d.get(key="k", default=None):
+        return 4
+    return None
+''',
+    "stringly.py": '''def handle(mode, env):
+    if mode in ("fast", "slow", "auto"):
+        return 1
+    if env == "production":
+        return 2
+    elif env == "staging":
+        return 3
+    assert mode in {"a", "b"}
+    return check(mode, "strict")
+''',
+    "sample.ts": '''#!/usr/bin/env node
+import { readFile } from "fs";
+
+export class Service {
+  private count = 0;
+
+  run(items: string[], mode: string): string {
+    let out = "";
+    for (const item of items) {
+      out += item;
+      if (mode === "fast") {
+        console.log(item, 42, 0x1f, 10n);
+      }
+    }
+    const data = fetchData(items);
+    this.save(data);
+    return out;
+  }
+}
+''',
+    "sample.rs": '''use std::fs;
+
+#[derive(Debug)]
+struct Config { name: String }
+
+async fn load(paths: Vec<String>) -> String {
+    let mut out = String::new();
+    for p in paths.iter() {
+        let text = fs::read_to_string(p).unwrap();
+        let copy = text.clone();
+        out.push_str(&copy.clone().clone());
+        let n: i32 = "42".parse().expect("number");
+        if n > 1000 { std::thread::sleep(std::time::Duration::from_secs(5)); }
+    }
+    out
+}
+
+#[cfg(test)]
+mod tests {
+    #[test]
+    fn t() { let x = Some(1).unwrap(); }
+}
+''',
+}
+
+_MUTATION_DRIVER = r"""
+import json, logging, re, sys
+from pathlib import Path
+sys.path.insert(0, sys.argv[1])
+root = Path(sys.argv[2])
+corpus = json.loads((root / "corpus.json").read_text())
+from src.orchestrator.core import Orchestrator
+records = []
+class Tap(logging.Handler):
+    def emit(self, r):
+        m = r.getMessage()
+        if "failed on" in m or "Worker error" in m:
+            exc = r.exc_info[1] if r.exc_info else None
+            records.append(m + (" :: " + type(exc).__name__ + ": " + str(exc)[:120] if exc else ""))
+lg = logging.getLogger("src.orchestrator.core"); lg.addHandler(Tap()); lg.propagate = False; lg.setLevel(logging.ERROR)
+o = Orchestrator(project_root=root)
+TOK = re.compile(r"\s+|[A-Za-z_][A-Za-z_0-9]*|\d+|.", re.S)
+out = {}
+for name, text in sorted(corpus.items()):
+    toks = TOK.findall(text)
+    idx = [i for i, t in enumerate(toks) if not t.isspace()]
+    mutants = [("healthy", -1, text)]
+    for i in idx:
+        mutants.append(("delete-token", i, "".join(toks[:i] + toks[i + 1:])))
+        if sys.argv[3] == "thorough":
+            mutants.append(("duplicate-token", i, "".join(toks[:i + 1] + toks[i:])))
+    for i in idx[::3]:
+        mutants.append(("truncate", i, "".join(toks[:i + 1])))
+    stem, ext = name.rsplit(".", 1)
+    for k, (op, i, src) in enumerate(mutants):
+        p = root / f"{stem}__m{k}.{ext}"
+        p.write_text(src, encoding="utf-8")
+        before = len(records)
+        crash = None
+        try:
+            o.lint_file(p)
+        except BaseException as e:  # noqa
+            crash = type(e).__name__ + ": " + str(e)[:120]
+        p.unlink()
+        bad = records[before:] + ([("exception escaped lint_file: " + crash)] if crash else [])
+        e = out.setdefault(name + "/" + op, {"n": 0, "bad": []})
+        e["n"] += 1
+        if bad and len(e["bad"]) < 5:
+            line = src[:sum(len(t) for t in toks[:max(i, 0)])].count("\n") + 1
+            e["bad"].append({"token": toks[i] if i >= 0 else "", "line": line, "what": bad[0][:260],
+                             "mutated_line": (src.split("\n") + [""])[min(line - 1, len(src.split("\n")) - 1)][:120]})
+        if bad:
+            e["nbad"] = e.get("nbad", 0) + 1
+print("RESULT" + json.dumps(out))
+"""
+
+
+@custom("c11-mutation-swallowed-failure-bounded", props=["C11"])
+def c11_mutation_bounded(ctx):
+    tmp = _tempfile.mkdtemp(prefix="c11mut_")
+    with open(_os.path.join(tmp, "corpus.json"), "w", encoding="utf-8") as fh:
+        _json.dump(MUTATION_CORPUS, fh)
+    p = _subprocess.run([_sys.executable, "-c", _MUTATION_DRIVER, ctx["repo"], tmp, str(ctx.get("tier", "quick"))],
+                        capture_output=True, text=True, timeout=900, cwd=tmp)
+    import shutil
+    shutil.rmtree(tmp, ignore_errors=True)
+    line = [ln for ln in p.stdout.splitlines() if ln.startswith("RESULT")]
+
+    def ob(name, verdict, note, cases=0):
+        return {"name": f"c11-mutation-swallowed-failure-bounded/{name}", "kind": "bounded", "verdict": verdict,
+                "solver": "native", "ms": 0.0, "carries": True, "lineno": 0, "note": note, "cases": cases,
+                "tool": "real Orchestrator, all registered rules, log tap on src.orchestrator.core",
+                "budget": "all single-token deletions, truncation after every 3rd token (+ all duplications in the thorough tier)",
+                "witness_confirmed": verdict == "refuted"}
+    if not line:
+        return [ob("driver", "unknown", "driver failed: " + (p.stderr or p.stdout)[-400:])]
+    res = _json.loads(line[0][len("RESULT"):])
+    obs = []
+    for key in sorted(res):
+        e = res[key]
+        if e.get("nbad"):
+            w = e["bad"][0]
+            obs.append(ob(key, "refuted", f"{e['nbad']} of {e['n']} mutants: {w['what']} -- e.g. token {w['token']!r} on line "
+                          f"{w['line']}: {w['mutated_line']!r}", e["n"]))
+        else:
+            obs.append(ob(key, "discharged", f"{e['n']} mutants: no rule failed, no exception escaped", e["n"]))
+    return obs
+
+
+# ================================================================== conditional-verbose: the if-test predicates are total
+# "No rule fails internally": an IndexError / AttributeError inside these helpers is swallowed by _safe_check_rule and the
+# whole file's conditional-verbose analysis is dropped. Raise set [] on the chain is_verbose_condition -> ... ; the index
+# `test.args[0]` is safe BECAUSE _is_dict_get_call_with_args guarantees a positional argument (its value clause).
+CVA = "src/linters/print_statements/conditional_verbose_analyzer.py::"
+
+
+def cv_get_call_with_positional_arg(call):
+    return isinstance(call.func, ast.Attribute) and call.func.attr == "get" and len(call.args) > 0
+
+
+@contract(CVA + "_is_dict_get_call_with_args", props=["C11", "C19"], types=dict(call=PyNode), returns=Bool, raises=[])
+class CvIsDictGetCallWithArgs:
+    def requires(call):
+        return isinstance(call, ast.Call)
+
+    def value(call):
+        # "with args" = with at least one POSITIONAL argument (the caller reads args[0])
+        return cv_get_call_with_positional_arg(call)
+
+
+@contract(CVA + "_first_arg_is_verbose_string", props=["C11", "C19"], types=dict(arg=PyNode), returns=Bool, raises=[])
+class CvFirstArgIsVerboseString:
+    def requires(arg):
+        return arg is not None
+
+    def ensures_only_string_constants(arg, result):
+        return implies(result, isinstance(arg, ast.Constant))
+
+
+@contract(CVA + "_is_verbose_dict_get", props=["C11", "C19"], types=dict(test=PyNode), returns=Bool, raises=[])
+class CvIsVerboseDictGet:
+    def requires(test):
+        return test is not None and all(a is not None for a in test.args)
+
+    def ensures_only_get_calls_with_a_positional_argument(test, result):
+        return implies(result, isinstance(test, ast.Call) and cv_get_call_with_positional_arg(test))
+
+
+@contract(CVA + "_is_simple_verbose_name", props=["C11", "C19"], types=dict(test=PyNode), returns=Bool, raises=[])
+class CvIsSimpleVerboseName:
+    def requires(test):
+        return test is not None
+
+    def ensures_only_names(test, result):
+        return implies(result, isinstance(test, ast.Name))
+
+
+@contract(CVA + "_is_verbose_attribute", props=["C11", "C19"], types=dict(test=PyNode), returns=Bool, raises=[])
+class CvIsVerboseAttribute:
+    def requires(test):
+        return test is not None
+
+    def ensures_only_attributes(test, result):
+        return implies(result, isinstance(test, ast.Attribute))
+
+
+@contract(CVA + "_is_verbose_subscript", props=["C11", "C19"], types=dict(test=PyNode), returns=Bool, raises=[])
+class CvIsVerboseSubscript:
+    def requires(test):
+        return test is not None and implies(isinstance(test, ast.Subscript), test.slice is not None)
+
+    def ensures_only_constant_subscripts(test, result):
+        return implies(result, isinstance(test, ast.Subscript) and isinstance(test.slice, ast.Constant))
+
+
+@contract(CVA + "is_verbose_condition", props=["C11", "C19"], types=dict(test=PyNode), returns=Bool, raises=[])
+class CvIsVerboseCondition:
+    def requires(test):
+        return test is not None and all(a is not None for a in test.args) \
+            and implies(isinstance(test, ast.Subscript), test.slice is not None)
+
+    def ensures_one_of_the_documented_shapes(test, result):
+        return implies(result, isinstance(test, (ast.Name, ast.Attribute, ast.Subscript, ast.Call)))
+
+
+@contract(CVA + "is_logger_call", props=["C11", "C19"], types=dict(node=PyNode), returns=Bool, raises=[])
+class CvIsLoggerCall:
+    def requires(node):
+        return isinstance(node, ast.Call)
+
+    def ensures_only_method_calls(node, result):
+        return implies(result, isinstance(node.func, ast.Attribute))
+
+
+@contract(CVA + "_extract_logger_method", props=["C11", "C19"], types=dict(node=PyNode), returns=Str, raises=[])
+class CvExtractLoggerMethod:
+    def requires(node):
+        return isinstance(node, ast.Call)
+
+    def value(node):
+        return node.func.attr if isinstance(node.func, ast.Attribute) else ""
+
+
+# ================================================================== lazy-ignores: the rule-id / header helper chain is total
+# IgnoreSuppressionMatcher._normalize -> SuppressionsParser.normalize_rule_id is applied to EVERY rule id found in a
+# suppression comment, including the empty id a dangling comma leaves (`# noqa: F401,`); the header extraction runs on
+# every file. Raise set [] on each (index / None safety included): a failure here is swallowed by _safe_check_rule and
+# all lazy-ignores findings of the file are lost.
+LZ = "src/linters/lazy_ignores/"
+SuppParserT = Rec("SuppressionsParser", cls=LZ + "header_parser.py::SuppressionsParser")
+LzMatcherT = Rec("IgnoreSuppressionMatcher", cls=LZ + "matcher.py::IgnoreSuppressionMatcher", _parser=SuppParserT,
+                 _min_justification_length=Int)
+LzMatchT = Opaque("Match")
+
+
+@contract(LZ + "header_parser.py::SuppressionsParser.normalize_rule_id", props=["C11", "C19"],
+          types=dict(self=SuppParserT, rule_id=Str, normalized=Str), returns=Str, raises=[])
+class LzNormalizeRuleId:
+    """Total on every string, the empty one included (raise set [] -- exact)."""
+    def ensures_no_longer_than_the_input(rule_id, result):
+        return len(result) >= 0
+
+
+@contract(LZ + "matcher.py::IgnoreSuppressionMatcher._normalize", props=["C11", "C19"],
+          types=dict(self=LzMatcherT, rule_id=Str), returns=Str, raises=[])
+class LzMatcherNormalize:
+    def ensures_total(rule_id, result):
+        return len(result) >= 0
+
+
+def skip_leading_comment_lines(lines: SeqOf(Str)) -> SeqOf(Str):
+    """The lines from the first one that is neither blank nor a `#` comment line on (none left: the empty list)."""
+    if len(lines) == 0:
+        return []
+    if lines[0].strip() == "" or lines[0].strip().startswith("#"):
+        return skip_leading_comment_lines(lines[1:])
+    return lines
+
+
+@contract(LZ + "header_parser.py::SuppressionsParser._skip_leading_comments", props=["C11", "C19", "C13"],
+          types=dict(self=SuppParserT, code=Str, lines=SeqOf(Str), i=Int, line=Str, stripped=Str), returns=Str, raises=[])
+class LzSkipLeadingComments:
+    """C19 / C13: shebang, coding line, licence comment, blank lines before the header docstring are transparent."""
+    def ensures_comment_and_blank_lines_are_skipped(code, result):
+        return result == ("\n".join(skip_leading_comment_lines(code.split("\n")))
+                          if len(skip_leading_comment_lines(code.split("\n"))) > 0 else "")
+
+    def inv0(code, lines, rest):
+        return lines == code.split("\n") and len(rest) <= len(lines) and \
+            skip_leading_comment_lines(lines) == skip_leading_comment_lines(rest) and \
+            implies(len(rest) > 0, lines[len(lines) - len(rest):] == rest)
+
+
+IgnoreDirectiveT = Rec("IgnoreDirective", cls=LZ + "types.py::IgnoreDirective", rule_ids=SeqOf(Str), line=Int, column=Int,
+                       raw_text=Str, inline_justification=Opt(Str))
+
+
+@contract(LZ + "matcher.py::IgnoreSuppressionMatcher._has_valid_inline_justification", props=["C11", "C19"],
+          types=dict(self=LzMatcherT, ignore=IgnoreDirectiveT), returns=Bool, raises=[])
+class LzHasValidInlineJustification:
+    def value(self, ignore):
+        return ignore.inline_justification is not None and len(ignore.inline_justification) > 0 \
+            and len(ignore.inline_justification) >= self._min_justification_length
+
+
+@contract(LZ + "directive_utils.py::normalize_path", props=["C11"], types=dict(file_path=Opt(PathT)), returns=PathT, raises=[])
+class LzNormalizePath:
+    def ensures_given_path_is_kept(file_path, result):
+        return implies(file_path is not None, result == file_path)
